@@ -71,6 +71,21 @@ fn main() {
             0
         }
         Some("replay") => harness::replay(&reg, &args[2]),
+        Some("render") => {
+            // ttg-sim render <replay.json> <dir>: write the sources of case.model (and
+            // model_after, if any) below <dir>/before and <dir>/after, for a human to look at
+            let v: serde_json::Value = serde_json::from_str(&std::fs::read_to_string(&args[2]).expect("read")).expect("json");
+            for (key, sub) in [("model", "before"), ("model_after", "after"), ("model_b", "after"), ("prelude", "prelude")] {
+                if let Ok(m) = serde_json::from_value::<model::Model>(v["case"][key].clone()) {
+                    for (p, text) in m.render() {
+                        let fp = std::path::Path::new(&args[3]).join(sub).join("src-tauri").join(p);
+                        std::fs::create_dir_all(fp.parent().unwrap()).unwrap();
+                        std::fs::write(fp, text).unwrap();
+                    }
+                }
+            }
+            0
+        }
         Some("selfcheck") => {
             let n: u64 = args.get(2).and_then(|s| s.parse().ok()).unwrap_or(32);
             let mut code = 0;
